@@ -86,6 +86,75 @@ func (t tsSink) close()              { t.c.Close() }
 func (t tsSink) conn() *memconn.Conn { return t.c.Conn }
 func (t tsSink) ready() bool         { return true }
 
+// ---- WebSocket HTTP-TS -------------------------------------------------------
+
+// rawSink collects everything lal writes (HTTP 101 response, WebSocket frames).  lal puts every write of TS packets
+// into one unmasked binary frame, so a marker (contiguous inside one TS packet) is contiguous in the raw bytes.
+type rawSink struct {
+	cn   *memconn.Conn
+	mu   sync.Mutex
+	cond *sync.Cond
+	buf  []byte
+	eof  bool
+}
+
+func newRawSink(conn *memconn.Conn) *rawSink {
+	r := &rawSink{cn: conn}
+	r.cond = sync.NewCond(&r.mu)
+	go func() {
+		b := make([]byte, 32*1024)
+		for {
+			n, err := conn.Read(b)
+			r.mu.Lock()
+			r.buf = append(r.buf, b[:n]...)
+			if err != nil {
+				r.eof = true
+			}
+			r.cond.Broadcast()
+			r.mu.Unlock()
+			if err != nil {
+				return
+			}
+		}
+	}()
+	return r
+}
+
+func (r *rawSink) wait(pred func() bool, d time.Duration) bool {
+	deadline := time.Now().Add(d)
+	t := time.AfterFunc(d, func() { r.mu.Lock(); r.cond.Broadcast(); r.mu.Unlock() })
+	defer t.Stop()
+	r.mu.Lock()
+	defer r.mu.Unlock()
+	for {
+		if pred() {
+			return true
+		}
+		if r.eof || !time.Now().Before(deadline) {
+			return pred()
+		}
+		r.cond.Wait()
+	}
+}
+
+func (r *rawSink) has(pat []byte, exact bool) bool {
+	r.mu.Lock()
+	defer r.mu.Unlock()
+	return bytes.Contains(r.buf, pat)
+}
+func (r *rawSink) waitHas(pat []byte, exact bool, d time.Duration) bool {
+	return r.wait(func() bool { return bytes.Contains(r.buf, pat) }, d)
+}
+func (r *rawSink) ended() bool {
+	r.mu.Lock()
+	defer r.mu.Unlock()
+	return r.eof
+}
+func (r *rawSink) waitEnded(d time.Duration) bool { return r.wait(func() bool { return r.eof }, d) }
+func (r *rawSink) close()                         { _ = r.cn.Close() }
+func (r *rawSink) conn() *memconn.Conn            { return r.cn }
+func (r *rawSink) ready() bool                    { return true }
+
 // ---- RTSP ------------------------------------------------------------------
 
 // rtspSink runs DESCRIBE / SETUP / PLAY and then collects the interleaved RTP packets in a goroutine of its own:
@@ -232,8 +301,14 @@ func join(s *inproc.Server, kind, name, query string) sink {
 	switch kind {
 	case "flv":
 		return msgSink{lalclient.NewFlvSub(s, "live", name+query, false)}
+	case "wsflv":
+		return msgSink{lalclient.NewFlvSub(s, "live", name+query, true)}
 	case "ts":
 		return tsSink{lalclient.NewTsSub(s, "live", name+query)}
+	case "wsts":
+		conn := s.HttpSub("/live/"+name+".ts"+query, true)
+		conn.WaitPeerIdle(lalclient.IdleTimeout) // admission done, handler parked in its read loop
+		return newRawSink(conn)
 	case "rtsp":
 		r := newRtspSink(s, "rtsp://127.0.0.1:5544/live/"+name+query)
 		// the DESCRIBE has been handed to lal's observer once it was written and the server is back in Read (or the
